@@ -13,13 +13,22 @@ REX = "regular-language inclusion/equivalence decided by z3's regex solver on pa
 CHECKS = {
     "C12": dict(
         engine="symex",
-        category="model_checking",
-        text="Every feasible path of the real Tokenizer.tokenize/merge source on K arbitrary candidate tokens (offsets, kinds and order symbolic, text length unbounded) is explored and the four clauses of C12 are discharged by z3 on each; this is a bounded proof in the number of interacting candidate tokens, not sampling.",
+        category="other",
+        text="Bounded symbolic verification: every feasible path of the real Tokenizer.tokenize/merge source on K arbitrary candidate tokens (offsets, kinds and order symbolic, text length unbounded) is explored and the four clauses of C12 are discharged by z3 on each; this is a bounded proof in the number of interacting candidate tokens, not sampling.",
         note="Bound: K=2 (quick) / K=3 (thorough) candidate tokens. Trusted: the AST interpreter (validated against CPython on the repo's test strings each run), z3, the append_text summary (proved separately on <=6 symbolic characters). What the extractors match is outside (C13/C14).",
         technique=SYMEX,
         design_ref="DESIGN.md section 3, C12",
     ),
 }
+
+CHECKS["C13"] = dict(
+    engine="rex",
+    category="other",
+    text="Unbounded regular-language verification by SMT: for each of the ~6,800 installed extractors, 'every text the pattern matches contains (after the tokenizer's own text transformation) a filter word registered for it' is one emptiness query decided by z3's regex solver for texts of any length; plus structural checks that a tokenizer built on a sub-list only ever selects members of that sub-list.",
+    note="Trusted: z3's sequence/regex theory, the re._parser AST -> z3 translation (validated each run against the real regex engine on concrete members/non-members), pyahocorasick's contract (iter reports every added word that occurs). Alphabet: code points up to U+2FFFF, extended to all of Unicode by a recorded class-signature argument. Custom extractors outside the installed list are outside; sub-lists are covered structurally for 5 sampled shapes, not symbolically.",
+    technique=REX,
+    design_ref="DESIGN.md section 3, C13",
+)
 
 PENDING = {}
 
